@@ -87,6 +87,8 @@ pub struct PoolConfig {
     pub run_budget: Duration,
     pub deadline: Option<Instant>,
     pub thorough: bool,
+    /// start a fresh worker process for every spec (history oracle, replays)
+    pub fresh_per_spec: bool,
 }
 
 #[derive(Default)]
@@ -99,11 +101,13 @@ pub struct PoolStats {
     pub hit_deadline: bool,
 }
 
-/// Run all specs; `sink(position, record)` is called (serialised) for every
-/// finished run and returns `false` to stop issuing further runs.
+/// Run all specs; `sink(position, record, history)` is called (serialised) for
+/// every finished run and returns `false` to stop issuing further runs.
+/// `history` = the positions the same worker PROCESS executed before this one
+/// (its hidden input, should the library ever keep state between calls).
 pub fn run_specs<F>(specs: &[Spec], cfg: &PoolConfig, sink: F) -> PoolStats
 where
-    F: FnMut(usize, Record) -> bool + Send,
+    F: FnMut(usize, Record, &[usize]) -> bool + Send,
 {
     let n = specs.len();
     let next = AtomicUsize::new(0);
@@ -178,6 +182,8 @@ where
                 let mut pid = worker.child.lock().unwrap().id();
                 pids[w].store(pid as u64, Ordering::SeqCst);
                 let cpu_now = |pid: u32| child_cpu_ms(pid).unwrap_or(0) + 1;
+                // positions this worker process has executed since it was spawned
+                let mut hist: Vec<usize> = vec![];
                 'outer: loop {
                     if stop.load(Ordering::SeqCst) {
                         break;
@@ -234,6 +240,7 @@ where
                             *children[w].lock().unwrap() = Some(worker.child.clone());
                             pid = worker.child.lock().unwrap().id();
                             pids[w].store(pid as u64, Ordering::SeqCst);
+                            hist.clear();
                             if in_run_phase {
                                 Record {
                                     idx: spec.idx,
@@ -268,7 +275,19 @@ where
                             }
                         };
                         completed.fetch_add(1, Ordering::SeqCst);
-                        let go_on = (sink.lock().unwrap())(pos, rec);
+                        let go_on = (sink.lock().unwrap())(pos, rec, &hist);
+                        hist.push(pos);
+                        if cfg.fresh_per_spec {
+                            let old = std::mem::replace(&mut worker, spawn_worker(cfg.thorough));
+                            let Worker { child, stdin, stdout } = old;
+                            drop(stdin);
+                            drop(stdout);
+                            let _ = child.lock().unwrap().wait();
+                            *children[w].lock().unwrap() = Some(worker.child.clone());
+                            pid = worker.child.lock().unwrap().id();
+                            pids[w].store(pid as u64, Ordering::SeqCst);
+                            hist.clear();
+                        }
                         if !go_on {
                             stop.store(true, Ordering::SeqCst);
                         }
@@ -299,7 +318,7 @@ pub fn run_collect(specs: &[Spec], cfg: &PoolConfig) -> Vec<Option<Record>> {
     let mut out: Vec<Option<Record>> = vec![None; specs.len()];
     {
         let out_ref = &mut out;
-        run_specs(specs, cfg, move |pos, rec| {
+        run_specs(specs, cfg, move |pos, rec, _hist| {
             out_ref[pos] = Some(rec);
             true
         });
